@@ -240,8 +240,24 @@ def _classify_check(chk):
     return "property"
 
 
+BATCH = int(os.environ.get("VERIF_KANI_BATCH", "6"))
+
+
 def run_group(scratch, cfg_name, harnesses, jobs=None, extra_args=None):
-    """Run all harnesses (same config) in one cargo-kani invocation. Returns dict name -> result."""
+    """Run all harnesses of one build configuration. cargo-kani keeps the output of every harness of an invocation in memory
+    (observed: 20 GB for 29 harnesses), so a group is split into invocations of at most BATCH harnesses."""
+    results, infos = {}, []
+    for k in range(0, len(harnesses), BATCH):
+        r, info = _run_batch(scratch, cfg_name, harnesses[k:k + BATCH], jobs, extra_args)
+        results.update(r)
+        infos.append(info)
+    info = {"cmd": " ;; ".join(i["cmd"] for i in infos), "wall_s": round(sum(i["wall_s"] for i in infos), 1),
+            "rc": max((i["rc"] for i in infos), key=abs) if infos else 0, "tools": infos[0].get("tools") if infos else None}
+    return results, info
+
+
+def _run_batch(scratch, cfg_name, harnesses, jobs=None, extra_args=None):
+    """Run a few harnesses (same config) in one cargo-kani invocation. Returns dict name -> result."""
     cfg = CONFIGS[cfg_name]
     env = dict(os.environ)
     env.update(OFFLINE_ENV)
